@@ -110,6 +110,8 @@ struct FnState {
     keymap: HashMap<String, Key>,
     listed: BTreeSet<String>,
     inv_tainted: bool,
+    /// stamp -> actor that executed it
+    stored_by: HashMap<u64, u8>,
 }
 
 impl FnState {
@@ -202,7 +204,7 @@ pub fn exec(case: &Case2, mut log: Option<&mut Vec<String>>) -> Exec2 {
         }
         st.insert(
             *id,
-            FnState { spec: s, cfg: cfg_of(s), models: BTreeMap::new(), keymap: HashMap::new(), listed: BTreeSet::new(), inv_tainted: false },
+            FnState { spec: s, cfg: cfg_of(s), models: BTreeMap::new(), keymap: HashMap::new(), listed: BTreeSet::new(), inv_tainted: false, stored_by: HashMap::new() },
         );
     }
     let mut actors: BTreeMap<u8, Actor> = BTreeMap::new();
@@ -368,17 +370,28 @@ pub fn exec(case: &Case2, mut log: Option<&mut Vec<String>>) -> Exec2 {
                         return Ok(());
                     }
                     let tainted = fs.inv_tainted;
+                    // was the entry this call should have been served stored by another actor?
+                    let stored_by_other = model.e.get(&kk).map_or(false, |e| fs.stored_by.get(&e.stamp).map_or(false, |a0| *a0 != *a));
                     let r = check_call(&model, &fs.cfg, &plan, &obs, now).map_err(|mut c| {
                         if tainted && matches!(c.name.as_str(), "needless_eviction" | "victim_count" | "wrong_victim" | "limit_exceeded" | "memory_exceeded" | "mem_overevict" | "phantom_hit" | "needless_execution") {
                             c.owners.push("C13".to_string());
                         }
-                        if multi && matches!(c.name.as_str(), "phantom_hit" | "needless_execution" | "stale_value" | "needless_eviction" | "victim_count" | "limit_exceeded") {
+                        // C14 owns what cross-thread interference explains: a thread-scope cache that
+                        // serves / loses entries although this thread's own history says otherwise, or a
+                        // shared cache that does not serve what another thread stored
+                        if multi && sp.flavour == Flavour::Thread && matches!(c.name.as_str(), "phantom_hit" | "needless_execution" | "stale_value") {
+                            c.owners.push("C14".to_string());
+                        }
+                        if multi && sp.flavour != Flavour::Thread && c.name == "needless_execution" && stored_by_other {
                             c.owners.push("C14".to_string());
                         }
                         c.detail = format!("{} | fn {} #[{}]", c.detail, sp.fn_name, sp.attrs);
                         c
                     })?;
                     now = now_after;
+                    if let Some(st) = exec_stamp {
+                        fs.stored_by.insert(st, *a);
+                    }
                     if exec_stamp.is_some() {
                         let removed = model.e.keys().filter(|x| **x != kk && !r.e.contains_key(x)).count();
                         let stored = r.e.get(&kk).map_or(false, |e| Some(e.stamp) == exec_stamp);
